@@ -85,6 +85,62 @@ Example C09_example :
   view s4 = [(CERT_SHA256, mkSig guid_zero h2)] /\ map sl_listsize s4 = [76].
 Proof. vm_compute. repeat split. Qed.
 
+(* ---- the same operations called on one list directly (AppendBytes / AppendSignature,
+   RemoveBytes / RemoveSignature, Exists) ---- *)
+(* a successful append adds exactly the entry, in stored form, behind the others *)
+Theorem C09_list_append_ok : forall pem l o d l',
+  list_append pem l o d = Ret l' ->
+  sl_type l' = sl_type l /\ sl_sigs l' = sl_sigs l ++ [mkSig o (normalize pem (sl_type l) d)] /\
+  ~ In (mkSig o (normalize pem (sl_type l) d)) (sl_sigs l).
+Proof. exact list_append_ok. Qed.
+(* duplicate and wrongly-sized appends are errors (an error carries no new list) *)
+Theorem C09_list_append_dup : forall pem l o d,
+  In (mkSig o (normalize pem (sl_type l) d)) (sl_sigs l) -> exists e, list_append pem l o d = Err e.
+Proof. exact list_append_dup. Qed.
+Theorem C09_list_append_wrong_size : forall pem l o d,
+  sl_sigs l <> [] -> sl_size l <> blen (normalize pem (sl_type l) d) + 16 ->
+  exists e, list_append pem l o d = Err e.
+Proof. exact list_append_wrong_size. Qed.
+Theorem C09_list_append_sha256_size : forall pem l o d,
+  sl_type l = CERT_SHA256 -> blen d <> 32 -> exists e, list_append pem l o d = Err e.
+Proof. exact list_append_sha256_size. Qed.
+(* a successful remove deletes one matching entry; it is an error exactly when none matches *)
+Theorem C09_list_remove_ok : forall l o d l',
+  list_remove l o d = Ret l' ->
+  sl_type l' = sl_type l /\
+  exists pre post, sl_sigs l = pre ++ [mkSig o d] ++ post /\ sl_sigs l' = pre ++ post.
+Proof. exact list_remove_ok. Qed.
+Theorem C09_list_remove_absent : forall l o d,
+  (exists e, list_remove l o d = Err e) <-> ~ In (mkSig o d) (sl_sigs l).
+Proof. exact list_remove_absent. Qed.
+(* Exists reports the first matching position *)
+Theorem C09_list_index : forall sigs s,
+  match index_of sigs s with
+  | Some i => exists pre post, sigs = pre ++ [s] ++ post /\ N.of_nat (length pre) = i /\ ~ In s pre
+  | None => ~ In s sigs
+  end.
+Proof. exact index_of_spec. Qed.
+(* the size equations and the absence of duplicates survive every direct operation *)
+Theorem C09_list_append_inv : forall pem l o d l',
+  list_inv0 l -> list_append pem l o d = Ret l' -> list_inv l'.
+Proof. exact list_append_inv0. Qed.
+Theorem C09_list_remove_inv : forall l o d l', list_inv0 l -> list_remove l o d = Ret l' -> list_inv0 l'.
+Proof. exact (list_remove_inv0 (fun _ => None)). Qed.
+Theorem C09_list_history_inv : forall pem ops l,
+  list_inv0 l -> list_inv0 (fold_left (fun x op => fst (list_step pem x op)) ops l).
+Proof. exact list_history_inv. Qed.
+
+(* non-vacuity: two certificates of different length do not share a list *)
+Example C09_list_example :
+  let l0 := empty_list CERT_X509 in
+  let '(l1, r1) := list_step no_pem l0 (LAppend guid_zero (repeat x30 100)) in
+  let '(l2, r2) := list_step no_pem l1 (LAppend guid_zero (repeat x31 60)) in
+  let '(l3, r3) := list_step no_pem l2 (LAppend guid_zero (repeat x31 100)) in
+  let '(l4, r4) := list_step no_pem l3 (LRemove guid_zero (repeat x30 100)) in
+  (r1, r2, r3, r4) = (true, false, true, true) /\
+  (sl_listsize l3, sl_size l3, length (sl_sigs l3)) = (260, 116, 2%nat) /\ sl_listsize l4 = 144.
+Proof. vm_compute. repeat split. Qed.
+
 Print Assumptions C09_append_ok.
 Print Assumptions C09_append_pre.
 Print Assumptions C09_append_dup.
@@ -99,3 +155,13 @@ Print Assumptions C09_append_list_inv.
 Print Assumptions C09_history_inv.
 Print Assumptions C09_inv_sizes.
 Print Assumptions C09_inv_wf.
+Print Assumptions C09_list_append_ok.
+Print Assumptions C09_list_append_dup.
+Print Assumptions C09_list_append_wrong_size.
+Print Assumptions C09_list_append_sha256_size.
+Print Assumptions C09_list_remove_ok.
+Print Assumptions C09_list_remove_absent.
+Print Assumptions C09_list_index.
+Print Assumptions C09_list_append_inv.
+Print Assumptions C09_list_remove_inv.
+Print Assumptions C09_list_history_inv.
